@@ -232,6 +232,7 @@ pub fn run_c08c(ctx: &mut Ctx) {
 
 /// C08 at connection level, pre-write refusals: a response of every class that is refused with nothing written, then the fallback.
 pub fn run_c08d(ctx: &mut Ctx) {
+    run_c08d_expect(ctx);
     let script = enc(b"GET /x HTTP/1.1\r\n\r\nGET /y HTTP/1.1\r\n\r\n");
     let mut idx = 0u64;
     for code in [200u32, 302, 404, 500, 503, 599] {
@@ -240,6 +241,23 @@ pub fn run_c08d(ctx: &mut Ctx) {
                 idx += 1;
                 if ctx.mine(idx) {
                     case(ctx, &script, &format!("rr;wr:{code}:{variant};{tail}"));
+                }
+            }
+        }
+    }
+}
+
+/// … the same after an interim `100 Continue` has already gone out for this request (the refused final response still has
+/// sent nothing: the fallback must be possible)
+pub fn run_c08d_expect(ctx: &mut Ctx) {
+    let script = enc(b"PUT /d HTTP/1.1\r\nexpect: 100-continue\r\ncontent-length: 5\r\n\r\nhelloGET /y HTTP/1.1\r\n\r\n");
+    let mut idx = 1000u64;
+    for code in [200u32, 404, 500] {
+        for variant in ["c", "t", "g", "d"] {
+            for (read, tail) in [("bv", "wr:500:n;rr"), ("bf:100", "wr:500:e;rr;wr:200:n"), ("wc", "wr:500:n;rr")] {
+                idx += 1;
+                if ctx.mine(idx) {
+                    case(ctx, &script, &format!("rr;{read};wr:{code}:{variant};{tail}"));
                 }
             }
         }
